@@ -1,41 +1,46 @@
 (* C05/Properties.v - the property theorems of C05, and nothing else.
    Every theorem is closed by [exact <lemma>] and followed by Print Assumptions. *)
 From Coq Require Import NArith List Bool.
-From Morfuse Require Import Base.Arr C05.Model C05.Spec C05.ProofsCells C05.ProofsHeap C05.Proofs C05.ProofsCor.
+From Morfuse Require Import Base.Arr C05.Model C05.Spec C05.ProofsCells C05.ProofsLib C05.ProofsHeap C05.Proofs C05.ProofsCor.
 Import ListNotations.
 Local Open Scope N_scope.
 
 (* ---------------------------------------------------------------- the refinement *)
 
 (* For EVERY history of host calls (any argument list, any number of declared parameters,
-   any program of timed waits / pause+resume, any final statement: end <literal>, end
-   <parameter>, end, falling off the end, deleted while paused, deleted while waiting,
-   paused for ever; existing or missing label), record copies, relocations, moves,
+   any chain of threads - the host-started thread and the sub-threads started with
+   `local.r = thread sub` -, each with any program of timed waits / pause+resume and any
+   final statement: end <literal>, end <parameter>, end local.r (the sub-thread's result,
+   possibly still pending), end, falling off the end, deleted while paused, deleted while
+   waiting, deleting itself or deleted by a thread it starts or by an endon while it
+   executes, paused for ever; existing or missing label), record copies, relocations, moves,
    destructions, copy and move assignments between result cells, clock advances, Executes
    and Resets, the code-level engine - ScriptVariable cells with identities, ScriptPointer
-   registries (add / remove / setValueRef with its two-holder special case / Clear), the
-   VM's m_ReturnValue, the stack temporary of ScriptThread::Execute(Event&) that is moved
-   into the record - observes exactly what the specification observes, where a record's
-   result slot just names a call and shows that call's entry of the result map: the bound
-   parameters, every element of every record, GetNumRunningScripts, the number of threads,
-   and never an access to a dead cell or a freed ScriptPointer. *)
+   registries (add / remove / setValueRef with a plain or a Pointer-typed value, its
+   two-holder fast path and its general loop / Clear), every VM's m_ReturnValue and its
+   destructor's ClearPointer, the variables local.r, the stack temporaries of
+   ScriptThread::Execute(Event&) and Listener::CreateReturnThread - observes exactly what the
+   specification observes, where a record's result slot just names a thread and shows that
+   thread's entry of the result map (a value, empty, or forwarded to another thread): the
+   bound parameters, every element of every record, GetNumRunningScripts, the number of
+   threads, and never an access to a dead cell or a freed ScriptPointer. *)
 Theorem C05_call_protocol_refines_the_result_map :
   forall ops : list op, run ops = spec_run ops.
 Proof. exact run_refines_spec. Qed.
 Print Assumptions C05_call_protocol_refines_the_result_map.
 
 Theorem C05_every_operation_keeps_the_simulation :
-  forall sc h s o, R h s [] ->
+  forall sc h s o, R h s ->
     fst (fst (m_step (sc, h) o)) = fst (fst (s_step (sc, s) o)) /\
     snd (m_step (sc, h) o) = snd (s_step (sc, s) o) /\
-    R (snd (fst (m_step (sc, h) o))) (snd (fst (s_step (sc, s) o))) [].
+    R (snd (fst (m_step (sc, h) o))) (snd (fst (s_step (sc, s) o))).
 Proof. exact step_sim. Qed.
 Print Assumptions C05_every_operation_keeps_the_simulation.
 
 Theorem C05_every_reachable_state_is_related :
   forall ops,
     fst (m_final m_init ops) = fst (s_final s_init ops) /\
-    R (snd (m_final m_init ops)) (snd (s_final s_init ops)) [].
+    R (snd (m_final m_init ops)) (snd (s_final s_init ops)).
 Proof. exact reachable_R. Qed.
 Print Assumptions C05_every_reachable_state_is_related.
 
@@ -67,23 +72,25 @@ Print Assumptions C05_as_many_params_as_declared.
 
 (* ---------------------------------------------------------------- label not found *)
 
-(* label_not_found_leaves_nothing, from ANY state: the scheduler, every cell and registry,
-   the live VMs and the number of script instances are unchanged; the only new thing is the
-   host's own record holding its arguments *)
+(* label_not_found_leaves_nothing, from ANY state: the scheduler, every cell and registry, the
+   live VMs, the variables, the temporaries and the script instances are unchanged; the only
+   new thing is the host's own record holding its arguments *)
 Theorem C05_label_not_found_leaves_nothing :
-  forall sc h np steps f args,
-    let st' := fst (m_step (sc, h) (OCall false np steps f args)) in
-    let ob := snd (m_step (sc, h) (OCall false np steps f args)) in
-    fst st' = sc /\ hc (snd st') = hc h /\ vms (snd st') = vms h /\ ninst (snd st') = ninst h /\
+  forall sc h np prog args,
+    let st' := fst (m_step (sc, h) (OCall false np prog args)) in
+    let ob := snd (m_step (sc, h) (OCall false np prog args)) in
+    fst st' = sc /\ hc (snd st') = hc h /\ vms (snd st') = vms h /\ locs (snd st') = locs h /\
+    tcall (snd st') = tcall h /\ tmps (snd st') = tmps h /\
     recs (snd st') = recs h ++ [(nrec h, mkRec args None)] /\
-    ocall ob = CNoLabel /\ onrun ob = ninst h /\ onth ob = (length (pend sc) + length (paused sc))%nat.
+    ocall ob = CNoLabel /\ onrun ob = instances (map fst (vms h)) (tcall h) /\
+    onth ob = (length (pend sc) + length (paused sc))%nat.
 Proof. exact label_not_found_leaves_nothing. Qed.
 Print Assumptions C05_label_not_found_leaves_nothing.
 
 Theorem C05_label_not_found_leaves_nothing_in_the_specification :
-  forall sc s np steps f args,
-    let st' := fst (s_step (sc, s) (OCall false np steps f args)) in
-    fst st' = sc /\ alive (snd st') = alive s /\ done (snd st') = done s /\
+  forall sc s np prog args,
+    let st' := fst (s_step (sc, s) (OCall false np prog args)) in
+    fst st' = sc /\ alive (snd st') = alive s /\ done (snd st') = done s /\ slocs (snd st') = slocs s /\
     srecs (snd st') = srecs s ++ [(snrec s, mkSRec args None)].
 Proof. exact label_not_found_spec. Qed.
 Print Assumptions C05_label_not_found_leaves_nothing_in_the_specification.
@@ -94,72 +101,168 @@ Print Assumptions C05_label_not_found_leaves_nothing_in_the_specification.
    returns with the thread gone and the value d of r (a literal or a parameter) as the last
    element of the record (no element when d is NIL) *)
 Theorem C05_result_sync :
-  forall ops np r args,
+  forall ops np r args, r <> RLocal ->
     let d := eval_res (bind np args) r in
-    let ob := obs_after ops (OCall true np [] (FEnd r) args) in
+    let ob := obs_after ops (OCall true np [mkLevel [] [] (FEnd r)] args) in
     ocall ob = COk false (bind np args) /\
     exists pre k, orecs ob = pre ++ [(k, map TD args ++ slot_toks d)].
 Proof. exact result_sync. Qed.
 Print Assumptions C05_result_sync.
 
-(* result_async, on the heap: whenever the thread t ends with `end d` - after whatever
-   schedule of waits, pauses and resumes brought it there - EVERY live cell that is pending
-   on t (the record's cell, its copies, relocated cells, cells assigned from them) holds d
-   afterwards.  The scheduler reaches the heap through vm_end / vm_kill only. *)
+(* result_async, on the heap: whenever the thread t ends - after whatever schedule of waits,
+   pauses and resumes brought it there - with a value, without one, or with the possibly
+   still pending result of its sub-thread, EVERY live cell that is pending on t (the record's
+   cell, its copies, relocated cells, cells assigned from them, the variable local.r of the
+   thread that started t, temporaries of calls in progress) holds exactly what the
+   specification's entry for t says, and every other cell is untouched.  The scheduler
+   reaches the heap through vm_end / vm_kill / spawn / spawned only. *)
+Theorem C05_result_async_every_holder_gets_the_entry :
+  forall t e h s rc, R h s -> In (t, rc) (vms h) ->
+    forall k, k <> rc -> lookup t (locs h) <> Some k ->
+      (holds (hc h) k t -> get (cells (hc (vm_end t e h))) k = Some (entry_val (end_entry s t e))) /\
+      (~ holds (hc h) k t -> get (cells (hc (vm_end t e h))) k = get (cells (hc h)) k).
+Proof. exact result_delivery. Qed.
+Print Assumptions C05_result_async_every_holder_gets_the_entry.
+
 Theorem C05_result_async_every_holder_gets_the_value :
-  forall t d h s xs rc, R h s xs -> In (t, rc) (vms h) ->
+  forall t d h s rc, R h s -> In (t, rc) (vms h) ->
     forall k, k <> rc -> holds (hc h) k t ->
-      get (cells (hc (vm_end t (Some d) h))) k = Some (VD d).
+      get (cells (hc (vm_end t (EVal d) h))) k = Some (VD d).
 Proof. exact result_fanout. Qed.
 Print Assumptions C05_result_async_every_holder_gets_the_value.
 
 Theorem C05_end_without_value_empties_every_holder :
-  forall t h s xs rc, R h s xs -> In (t, rc) (vms h) ->
+  forall t h s rc, R h s -> In (t, rc) (vms h) ->
     forall k, k <> rc -> holds (hc h) k t ->
-      get (cells (hc (vm_end t None h))) k = Some (VD DNil).
+      get (cells (hc (vm_end t ENone h))) k = Some (VD DNil).
 Proof. exact result_none_fanout. Qed.
 Print Assumptions C05_end_without_value_empties_every_holder.
 
 Theorem C05_thread_end_keeps_the_simulation :
-  forall t r h s xs, R h s xs -> R (vm_end t r h) (s_end t r s) xs /\ tmp (vm_end t r h) = tmp h.
+  forall t e h s, R h s -> R (vm_end t e h) (s_end t e s) /\ tmps (vm_end t e h) = tmps h.
 Proof. exact vm_end_R. Qed.
 Print Assumptions C05_thread_end_keeps_the_simulation.
 
-(* killed = no result: the holders stay pending, the registry stays exact (nothing refers to
-   the destroyed m_ReturnValue) and the thread is gone *)
-Theorem C05_killed_thread_leaves_its_holders_pending :
-  forall t h s xs rc, R h s xs -> In (t, rc) (vms h) ->
+(* ---------------------------------------------------------------- forwarding *)
+
+(* `end local.r` while local.r (the cell x) still holds the pending result of the thread q:
+   the specification's entry of t is "forwarded to q", q is alive and younger than t, and
+   every holder of t's result - however many there are - is now a registered holder of q's
+   result; the ending VM's own cell does not join q (so its destructor cannot clear q) *)
+Theorem C05_forwarding_hands_every_holder_to_the_sub_thread :
+  forall t h s rc x q, R h s -> In (t, rc) (vms h) ->
+    lookup t (locs h) = Some x -> holds (hc h) x q ->
+    end_entry s t ELocal = RFwd q /\ In q (alive s) /\ t < q /\
+    forall k, k <> rc -> holds (hc h) k t -> holds (hc (vm_end t ELocal h)) k q.
+Proof. exact result_forwarded. Qed.
+Print Assumptions C05_forwarding_hands_every_holder_to_the_sub_thread.
+
+(* in the specification: what `end local.r` records, and what happens to everything that was
+   forwarded to q when q ends (with e = a value, no value / deleted, or a further forward):
+   it gets exactly q's entry *)
+Theorem C05_end_local_forwards_to_the_sub_thread_or_copies_its_entry :
+  forall s t c, lookup t (slocs s) = Some c ->
+    end_entry s t ELocal = match lookup c (done s) with Some x => x | None => RFwd c end.
+Proof. exact forward_entry. Qed.
+Print Assumptions C05_end_local_forwards_to_the_sub_thread_or_copies_its_entry.
+
+Theorem C05_a_forwarded_result_gets_the_sub_threads_entry :
+  forall q e s u, In q (alive s) -> lookup u (done s) = Some (RFwd q) ->
+    lookup u (done (s_end q e s)) = Some (end_entry s q e).
+Proof. exact forwarded_gets_the_entry. Qed.
+Print Assumptions C05_a_forwarded_result_gets_the_sub_threads_entry.
+
+Theorem C05_forwarded_to_a_killed_thread_reads_nil :
+  forall q s u, In q (alive s) -> lookup u (done s) = Some (RFwd q) ->
+    sref_tok (s_kill q s) (SCall u) = TD DNil.
+Proof. exact forwarded_to_a_killed_thread_reads_nil. Qed.
+Print Assumptions C05_forwarded_to_a_killed_thread_reads_nil.
+
+(* ---------------------------------------------------------------- killed threads, nothing stays pending *)
+
+(* killed = the empty result, at once: the VM's destructor runs ClearPointer, every holder
+   becomes NIL, the registry stays exact, the thread is gone and nothing is pending on it *)
+Theorem C05_killed_thread_empties_every_holder :
+  forall t h s rc, R h s -> In (t, rc) (vms h) ->
     good (hc (vm_kill t h)) /\ thread_alive t (vm_kill t h) = false /\
-    forall k, k <> rc -> holds (hc h) k t -> holds (hc (vm_kill t h)) k t.
-Proof. exact killed_stays_pending. Qed.
-Print Assumptions C05_killed_thread_leaves_its_holders_pending.
+    (forall k, k <> rc -> holds (hc h) k t -> get (cells (hc (vm_kill t h))) k = Some (VD DNil)) /\
+    (forall k, ~ holds (hc (vm_kill t h)) k t).
+Proof. exact killed_empties_every_holder. Qed.
+Print Assumptions C05_killed_thread_empties_every_holder.
+
+(* ... on BOTH destruction paths: a VM that is deleted while it executes (the thread deletes
+   itself, a thread it started deletes it, an endon fires) is only marked by NotifyDelete; its
+   destructor - and with it ClearPointer - runs when the interpreter loop has returned *)
+Theorem C05_killed_while_executing_empties_every_holder :
+  forall t h s rc, R h s -> In (t, rc) (vms h) ->
+    good (hc (vm_kill_exec t h)) /\ thread_alive t (vm_kill_exec t h) = false /\
+    (forall k, k <> rc -> holds (hc h) k t -> get (cells (hc (vm_kill_exec t h))) k = Some (VD DNil)) /\
+    (forall k, ~ holds (hc (vm_kill_exec t h)) k t).
+Proof. exact killed_while_executing_empties_every_holder. Qed.
+Print Assumptions C05_killed_while_executing_empties_every_holder.
+
+Theorem C05_deletion_while_executing_keeps_the_simulation :
+  forall t h s, R h s -> R (vm_kill_exec t h) (s_kill t s) /\ tmps (vm_kill_exec t h) = tmps h.
+Proof. exact vm_kill_exec_R. Qed.
+Print Assumptions C05_deletion_while_executing_keeps_the_simulation.
 
 Theorem C05_thread_deletion_keeps_the_simulation :
-  forall t h s xs, R h s xs -> R (vm_kill t h) (s_kill t s) xs /\ tmp (vm_kill t h) = tmp h.
+  forall t h s, R h s -> R (vm_kill t h) (s_kill t s) /\ tmps (vm_kill t h) = tmps h.
 Proof. exact vm_kill_R. Qed.
 Print Assumptions C05_thread_deletion_keeps_the_simulation.
 
-(* in the specification: a call that has its result keeps it through every operation; a call
-   whose thread is gone without a result never gets one *)
+(* nothing stays pending after the threads it could come from are gone: in every reachable
+   state a Pointer-typed cell belongs to a thread that is alive; in the specification a slot
+   that shows `pending` names an alive thread or was forwarded to one *)
+Theorem C05_a_pending_holder_implies_an_alive_thread :
+  forall ops k p, holds (hc (snd (m_final m_init ops))) k p ->
+    exists rc, In (p, rc) (vms (snd (m_final m_init ops))).
+Proof. exact pending_implies_alive. Qed.
+Print Assumptions C05_a_pending_holder_implies_an_alive_thread.
+
+Theorem C05_a_pending_slot_names_an_alive_thread :
+  forall ops r a t, In (r, mkSRec a (Some (SCall t))) (srecs (snd (s_final s_init ops))) ->
+    sref_tok (snd (s_final s_init ops)) (SCall t) = TPend ->
+    (lookup t (done (snd (s_final s_init ops))) = None /\ In t (alive (snd (s_final s_init ops)))) \/
+    (exists c, lookup t (done (snd (s_final s_init ops))) = Some (RFwd c) /\ In c (alive (snd (s_final s_init ops)))).
+Proof. exact pending_slot_implies_alive. Qed.
+Print Assumptions C05_a_pending_slot_names_an_alive_thread.
+
+Theorem C05_reset_leaves_nothing_pending :
+  forall h s, R h s ->
+    alive (s_reset s) = [] /\ vms (heap_reset h) = [] /\ forall k p, ~ holds (hc (heap_reset h)) k p.
+Proof. exact reset_leaves_nothing_pending. Qed.
+Print Assumptions C05_reset_leaves_nothing_pending.
+
+(* in the specification: a thread that has its value (or the empty result) keeps it through
+   every operation; a deleted thread has the empty result from the deletion on *)
 Theorem C05_a_delivered_result_is_stable :
-  forall sc h s o t x, R h s [] -> lookup t (done s) = Some x ->
-    lookup t (done (snd (fst (s_step (sc, s) o)))) = Some x.
+  forall sc h s o t v, R h s -> lookup t (done s) = Some (RVal v) ->
+    lookup t (done (snd (fst (s_step (sc, s) o)))) = Some (RVal v).
 Proof. exact result_stable. Qed.
 Print Assumptions C05_a_delivered_result_is_stable.
 
-Theorem C05_a_killed_call_never_gets_a_result :
-  forall sc h s o t, R h s [] -> t < sncall s -> ~ In t (alive s) -> lookup t (done s) = None ->
-    let s' := snd (fst (s_step (sc, s) o)) in ~ In t (alive s') /\ lookup t (done s') = None.
-Proof. exact killed_never_delivers. Qed.
-Print Assumptions C05_a_killed_call_never_gets_a_result.
+Theorem C05_a_killed_call_reads_nil_from_then_on :
+  forall t h s, R h s -> In t (alive s) ->
+    lookup t (done (s_kill t s)) = Some (RVal None) /\ ~ In t (alive (s_kill t s)) /\
+    sref_tok (s_kill t s) (SCall t) = TD DNil.
+Proof. exact killed_call_reads_nil. Qed.
+Print Assumptions C05_a_killed_call_reads_nil_from_then_on.
 
-Theorem C05_a_slot_shows_the_entry_of_its_call :
+Theorem C05_a_killed_call_reads_nil_after_every_later_operation :
+  forall sc h s o t, R h s -> lookup t (done s) = Some (RVal None) ->
+    sref_tok (snd (fst (s_step (sc, s) o))) (SCall t) = TD DNil.
+Proof. exact killed_call_reads_nil_for_ever. Qed.
+Print Assumptions C05_a_killed_call_reads_nil_after_every_later_operation.
+
+Theorem C05_a_slot_shows_the_entry_of_its_thread :
   forall s t,
     (lookup t (done s) = None -> sref_tok s (SCall t) = TPend) /\
-    (forall d, lookup t (done s) = Some (Some d) -> sref_tok s (SCall t) = TD d) /\
-    (lookup t (done s) = Some None -> sref_tok s (SCall t) = TD DNil).
+    (forall d, lookup t (done s) = Some (RVal (Some d)) -> sref_tok s (SCall t) = TD d) /\
+    (lookup t (done s) = Some (RVal None) -> sref_tok s (SCall t) = TD DNil) /\
+    (forall c, lookup t (done s) = Some (RFwd c) -> sref_tok s (SCall t) = TPend).
 Proof. exact slot_shows_result. Qed.
-Print Assumptions C05_a_slot_shows_the_entry_of_its_call.
+Print Assumptions C05_a_slot_shows_the_entry_of_its_thread.
 
 (* ---------------------------------------------------------------- the scheduler *)
 
@@ -172,9 +275,9 @@ Proof. exact never_hangs. Qed.
 Print Assumptions C05_no_history_hangs.
 
 Theorem C05_resume_leaves_nothing_due :
-  forall (H : Type) h_end h_kill fuel s (h : H), (weight s <= fuel)%nat ->
-    frame (fst (fst (resume H h_end h_kill fuel s h))) = frame s /\
-    forall w, In w (pend (fst (fst (resume H h_end h_kill fuel s h)))) -> frame s < wdue w.
+  forall (H : Type) h_end h_kill h_killx h_spawn h_spawned fuel s (h : H), (weight s <= fuel)%nat ->
+    frame (fst (fst (resume H h_end h_kill h_killx h_spawn h_spawned fuel s h))) = frame s /\
+    forall w, In w (pend (fst (fst (resume H h_end h_kill h_killx h_spawn h_spawned fuel s h)))) -> frame s < wdue w.
 Proof. exact resume_nothing_due. Qed.
 Print Assumptions C05_resume_leaves_nothing_due.
 
@@ -257,9 +360,21 @@ Theorem C05_registry_inv_clear_pointer :
 Proof. exact ptr_clear_ok. Qed.
 Print Assumptions C05_registry_inv_clear_pointer.
 
+(* setValueRef with a value that is itself the pending pointer q: every holder of p except the
+   ignored variable becomes a registered holder of q, the ignored variable becomes NIL, p is freed *)
+Theorem C05_registry_inv_set_value_ref_forward :
+  forall h p q ign l lq, good h -> get (ptrs h) p = Some l -> get (ptrs h) q = Some lq -> p <> q ->
+    good (set_value_ref_fwd h p q ign) /\ ncell (set_value_ref_fwd h p q ign) = ncell h /\
+    forall k, (holds h k p -> k <> ign -> holds (set_value_ref_fwd h p q ign) k q) /\
+              (holds h k p -> k = ign -> get (cells (set_value_ref_fwd h p q ign)) k = Some (VD DNil)) /\
+              (~ holds h k p -> get (cells (set_value_ref_fwd h p q ign)) k = get (cells h) k).
+Proof. exact set_value_ref_fwd_ok. Qed.
+Print Assumptions C05_registry_inv_set_value_ref_forward.
+
 (* ---------------------------------------------------------------- non-vacuity *)
 
 Definition view (o : obs) := (ocall o, map (fun r => last (snd r) TDead) (orecs o), onrun o, onth o).
+Definition one (steps : list step) (f : fin) : list level := [mkLevel [] steps f].
 
 (* three arguments, two declared parameters, `wait 1; wait 2; end local.p1`: pending after the
    call (frame time 0); the record is copied, relocated, the copy copied; the Executes at
@@ -268,7 +383,7 @@ Definition view (o : obs) := (ocall o, map (fun r => last (snd r) TDead) (orecs 
    Shown per operation: call outcome, last element of every record, instances, threads. *)
 Example C05_async_timed_waits_with_copies :
   map view (run [
-    OCall true 2 [SWait 1; SWait 2] (FEnd (RArg 1)) [DData 0 3; DData 2 1; DData 1 0];
+    OCall true 2 (one [SWait 1; SWait 2] (FEnd (RArg 1))) [DData 0 3; DData 2 1; DData 1 0];
     OCopy 0; OAdvance 1; OExecute; OReserve 0; OCopy 1; OAdvance 1; OExecute; OAdvance 1; OExecute ]) =
   [ (COk true [DData 0 3; DData 2 1], [TPend], 1%nat, 1%nat);
     (CNone, [TPend; TPend], 1%nat, 1%nat);
@@ -287,15 +402,15 @@ Proof. vm_compute. reflexivity. Qed.
    record); call 3 declares three parameters, gets one argument and returns the third (NIL:
    no element is added); call 4 returns its first parameter at once; the result cell of
    record 0 is moved into record 4 (record 0 shows NIL, record 4 is now pending on call 0);
-   at frame time 1 call 1 is deleted: its record stays pending for ever; at frame time 2 call
+   at frame time 1 call 1 is deleted: its record reads NIL from then on; at frame time 2 call
    0 is resumed and its value arrives in record 4. *)
 Example C05_pause_kill_nolabel_sync_move :
   map view (run [
-    OCall true 0 [SPause 2] (FEnd (RLit (DData 5 1))) [];
-    OCall true 1 [] (FKill 1) [DData 4 2];
-    OCall false 3 [] (FEnd (RLit (DData 0 1))) [DData 0 1; DNil];
-    OCall true 3 [] (FEnd (RArg 3)) [DData 0 1];
-    OCall true 1 [] (FEnd (RArg 1)) [DData 4 0; DData 0 1];
+    OCall true 0 (one [SPause 2] (FEnd (RLit (DData 5 1)))) [];
+    OCall true 1 (one [] (FKill 1)) [DData 4 2];
+    OCall false 3 (one [] (FEnd (RLit (DData 0 1)))) [DData 0 1; DNil];
+    OCall true 3 (one [] (FEnd (RArg 3))) [DData 0 1];
+    OCall true 1 (one [] (FEnd (RArg 1))) [DData 4 0; DData 0 1];
     OMoveAssign 4 0;
     OAdvance 1; OExecute; OAdvance 1; OExecute ]) =
   [ (COk true [], [TPend], 1%nat, 2%nat);
@@ -305,16 +420,47 @@ Example C05_pause_kill_nolabel_sync_move :
     (COk false [DData 4 0], [TPend; TPend; TD DNil; TD (DData 0 1); TD (DData 4 0)], 2%nat, 4%nat);
     (CNone, [TD DNil; TPend; TD DNil; TD (DData 0 1); TPend], 2%nat, 4%nat);
     (CNone, [TD DNil; TPend; TD DNil; TD (DData 0 1); TPend], 2%nat, 4%nat);
-    (CNone, [TD DNil; TPend; TD DNil; TD (DData 0 1); TPend], 1%nat, 2%nat);
-    (CNone, [TD DNil; TPend; TD DNil; TD (DData 0 1); TPend], 1%nat, 2%nat);
-    (CNone, [TD DNil; TPend; TD DNil; TD (DData 0 1); TD (DData 5 1)], 0%nat, 0%nat) ].
+    (CNone, [TD DNil; TD DNil; TD DNil; TD (DData 0 1); TPend], 1%nat, 2%nat);
+    (CNone, [TD DNil; TD DNil; TD DNil; TD (DData 0 1); TPend], 1%nat, 2%nat);
+    (CNone, [TD DNil; TD DNil; TD DNil; TD (DData 0 1); TD (DData 5 1)], 0%nat, 0%nat) ].
+Proof. vm_compute. reflexivity. Qed.
+
+(* forwarding.  Call 0: `wait 1; local.r = thread s1; end local.r`, s1: `wait 2; end 7`; its
+   record is copied at once (three holders of call 0's result when it forwards at frame time 1)
+   and once more afterwards.  Call 1 (record 2): a chain - the host thread waits 3 and ends with
+   the result of s1, which waits 1 and ends with the result of s2, which waits 5 and ends with a
+   string.  Call 2 (record 3) ends inside the call with the pending result of a sub-thread that
+   is deleted at frame time 2: the record stays pending until then and reads NIL afterwards.
+   At frame time 3 the sub-thread of call 0 ends: all three records of call 0 read 7; at frame
+   time 5 the end of the chain arrives in record 2. *)
+Example C05_forwarded_results :
+  map view (run [
+    OCall true 0 [mkLevel [SWait 1] [] (FEnd RLocal); mkLevel [] [SWait 2] (FEnd (RLit (DData 0 7)))] [];
+    OCopy 0;
+    OCall true 0 [mkLevel [] [SWait 3] (FEnd RLocal); mkLevel [] [SWait 1] (FEnd RLocal);
+                  mkLevel [SWait 5] [] (FEnd (RLit (DData 2 1)))] [];
+    OCall true 0 [mkLevel [] [] (FEnd RLocal); mkLevel [] [] (FKill 2)] [];
+    OAdvance 1; OExecute; OCopy 0; OAdvance 1; OExecute; OAdvance 1; OExecute; OAdvance 2; OExecute ]) =
+  [ (COk true [], [TPend], 1%nat, 1%nat);
+    (CNone, [TPend; TPend], 1%nat, 1%nat);
+    (COk true [], [TPend; TPend; TPend], 2%nat, 4%nat);
+    (COk false [], [TPend; TPend; TPend; TPend], 3%nat, 6%nat);
+    (CNone, [TPend; TPend; TPend; TPend], 3%nat, 6%nat);
+    (CNone, [TPend; TPend; TPend; TPend], 3%nat, 5%nat);
+    (CNone, [TPend; TPend; TPend; TPend; TPend], 3%nat, 5%nat);
+    (CNone, [TPend; TPend; TPend; TPend; TPend], 3%nat, 5%nat);
+    (CNone, [TPend; TPend; TPend; TD DNil; TPend], 2%nat, 3%nat);
+    (CNone, [TPend; TPend; TPend; TD DNil; TPend], 2%nat, 3%nat);
+    (CNone, [TD (DData 0 7); TD (DData 0 7); TPend; TD DNil; TD (DData 0 7)], 1%nat, 1%nat);
+    (CNone, [TD (DData 0 7); TD (DData 0 7); TPend; TD DNil; TD (DData 0 7)], 1%nat, 1%nat);
+    (CNone, [TD (DData 0 7); TD (DData 0 7); TD (DData 2 1); TD DNil; TD (DData 0 7)], 0%nat, 0%nat) ].
 Proof. vm_compute. reflexivity. Qed.
 
 (* sensitivity of the invariant.  [protocol mc d] replays the call protocol on the bare cell heap
    (VM cell 0, stack temporary 1, newPointer, m_ReturnValue = returnValue, the record cell 2 is
    constructed from the temporary by mc, the temporary dies, the thread ends with d).  With the
    move construction of the code the record cell receives d; with a move construction that does
-   not re-register (the defect that was fixed in /repo) the delivery writes through the dead
+   not re-register (a defect that was fixed in /repo) the delivery writes through the dead
    temporary (ub) and the record cell stays pending for ever.
    Shown: (ub, content of the record cell, registry of the ScriptPointer). *)
 Example C05_registered_move_construction_delivers :
